@@ -322,9 +322,9 @@ theorem hp_pend_err {timeout : Nat} {deadline : Option Nat} {a : Addr} {t : Nat}
 
 theorem hp_connect_single (a : Addr) (timeout : Nat) (deadline : Option Nat) (rd : Nat) :
     connect [a] timeout deadline rd =
-      (match (hp_pend timeout none a 0).res with
-       | none => .ok a.id (hp_pend timeout none a 0).done
-       | some e => .err a.id e (hp_pend timeout none a 0).done) := rfl
+      (match (hp_pend timeout deadline a 0).res with
+       | none => .ok a.id (hp_pend timeout deadline a 0).done
+       | some e => .err a.id e (hp_pend timeout deadline a 0).done) := rfl
 
 /-- decidable form of "accepts within the connect timeout" (for examples) -/
 def hp_acceptsWithin (timeout : Nat) (a : Addr) : Bool :=
